@@ -63,6 +63,16 @@ def ode_part(ctx):
             except Exception as ex:
                 ctx.case(rep, nontrivial=False)
                 continue        # C06's business
+            # half of the cases: not a relabelled copy but THE SAME graph object relabelled in place after the first call
+            # (results must not depend on what the object looked like in an earlier call)
+            inplace = k % 2 == 1
+            if inplace:
+                tmp = {u: ("__tmp__", i) for i, u in enumerate(list(G))}
+                nx.relabel_nodes(G, tmp, copy=False)
+                nx.relabel_nodes(G, {tmp[u]: m[u] for u in tmp}, copy=False)
+                H = G
+                rep["relabel"] = kind + ":in-place"
+                ctx.count("ode:in-place")
             try:
                 r2 = odes.call(name, H, kw2, *args, full, nodelist=nl2, p=0.5)
             except Exception as ex:
